@@ -112,23 +112,83 @@ class Slice:
 
 
 class Iter:
-    __slots__ = ('items', 'pos')
+    """An iterator value.  `items[pos:]` are the elements already produced and not yet consumed; `src` (a Python generator, or None)
+    yields the following ones on demand, so adaptors (`map`, `filter`, `take_while` ...) run their closures only when a consumer asks
+    for the next element, in the order the compiled code would."""
+    __slots__ = ('items', 'pos', 'src')
 
-    def __init__(self, items):
+    def __init__(self, items=(), src=None):
         self.items = list(items)
         self.pos = 0
+        self.src = src
+
+    def _pull(self):
+        if self.src is None:
+            return False
+        try:
+            x = next(self.src)
+        except StopIteration:
+            self.src = None
+            return False
+        self.items.append(x)
+        return True
+
+    def has_next(self):
+        return self.pos < len(self.items) or self._pull()
 
     def next(self):
-        if self.pos < len(self.items):
-            self.pos += 1
-            return Some(self.items[self.pos - 1])
-        return NONE
+        if self.pos >= len(self.items) and not self._pull():
+            return NONE
+        self.pos += 1
+        return Some(self.items[self.pos - 1])
+
+    def force(self):
+        while self._pull():
+            pass
 
     def rest(self):
+        self.force()
         return self.items[self.pos:]
 
+    def drain(self):
+        r = self.rest()
+        self.pos = len(self.items)
+        return r
+
+    def __deepcopy__(self, memo):
+        self.force()
+        c = Iter(copy.deepcopy(self.items, memo))
+        c.pos = self.pos
+        return c
+
     def __repr__(self):
-        return 'Iter%r@%d' % (self.items, self.pos)
+        return 'Iter%r@%d%s' % (self.items, self.pos, '+lazy' if self.src is not None else '')
+
+
+class _Rev:
+    """Sort key of core::cmp::Reverse(x)."""
+    __slots__ = ('k',)
+
+    def __init__(self, k):
+        self.k = k
+
+    def __lt__(self, o):
+        return o.k < self.k
+
+    def __gt__(self, o):
+        return o.k > self.k
+
+    def __le__(self, o):
+        return o.k <= self.k
+
+    def __ge__(self, o):
+        return o.k >= self.k
+
+    def __eq__(self, o):
+        return isinstance(o, _Rev) and o.k == self.k
+
+    def __hash__(self):
+        return hash(self.k)
 
 
 class Repeat:
@@ -211,6 +271,74 @@ def rust_str(s):
     return ''.join(out)
 
 
+INT_TY = re.compile(r'^([ui])(8|16|32|64|128|size)$')
+
+
+def int_range(ty):
+    """(lo, hi) of a Rust integer type name, or None."""
+    m = INT_TY.match((ty or '').strip())
+    if not m:
+        return None
+    bits = 64 if m.group(2) == 'size' else int(m.group(2))
+    return (-(1 << (bits - 1)), (1 << (bits - 1)) - 1) if m.group(1) == 'i' else (0, (1 << bits) - 1)
+
+
+def wrap_int(v, ty):
+    r = int_range(ty)
+    if r is None:
+        return v
+    lo, hi = r
+    span = hi - lo + 1
+    return (v - lo) % span + lo
+
+
+def ascii_lower(x):
+    return ''.join(c.lower() if 'A' <= c <= 'Z' else c for c in x)
+
+
+def fmt_float(v, debug=False):
+    """Display / Debug of an f64 the way Rust prints it (shortest digits that round-trip, never an exponent in Display)."""
+    if v != v:
+        return 'NaN'
+    if v in (float('inf'), float('-inf')):
+        return 'inf' if v > 0 else '-inf'
+    from decimal import Decimal
+    txt = format(Decimal(repr(v)), 'f')
+    if '.' in txt:
+        txt = txt.rstrip('0').rstrip('.')
+    if txt in ('-0', ''):
+        txt = '-0' if repr(v).startswith('-') else '0'
+    if debug and '.' not in txt and 'e' not in txt:
+        # Debug keeps ".0"; very large / small magnitudes switch to exponent form in Debug, which the crate never prints
+        if abs(v) >= 1e16 or (v != 0 and abs(v) < 1e-4):
+            raise Unsupported('Debug of the float %r' % v)
+        txt += '.0'
+    return txt
+
+
+def rust_debug_str(x):
+    out = ['"']
+    for c in x:
+        if c == '"':
+            out.append('\\"')
+        elif c == '\\':
+            out.append('\\\\')
+        elif c == '\n':
+            out.append('\\n')
+        elif c == '\t':
+            out.append('\\t')
+        elif c == '\r':
+            out.append('\\r')
+        elif c == '\0':
+            out.append('\\0')
+        elif ord(c) < 32 or ord(c) == 127 or not c.isprintable():
+            out.append('\\u{%x}' % ord(c))
+        else:
+            out.append(c)
+    out.append('"')
+    return ''.join(out)
+
+
 CHAR_PRED = {
     'is_whitespace': lambda c: c.isspace() or c in '\u0085',
     'is_alphabetic': lambda c: c.isalpha(),
@@ -279,34 +407,44 @@ class VM:
         if ref.kind == 'obj':
             if not ref.path:
                 raise Unsupported('overwrite of a by-value object')
-            base = ref.key
-            for p in ref.path[:-1]:
-                base = self.field(base, p)
-            self._set(base, ref.path[-1], val)
+            self._upd(ref.key, ref.path, val)
             return
         if ref.kind == 'elem':
-            if ref.path:
-                base = ref.key[0].items[ref.key[1]]
-                for p in ref.path[:-1]:
-                    base = self.field(base, p)
-                self._set(base, ref.path[-1], val)
-            else:
-                ref.key[0].items[ref.key[1]] = val
+            ref.key[0].items[ref.key[1]] = self._upd(ref.key[0].items[ref.key[1]], ref.path, val)
             return
         if ref.kind == 'local':
             fr, l = ref.key
             if not ref.path:
                 fr[l] = val
                 return
-            base = fr[l]
-        else:
-            if not ref.path:
-                self.heap[ref.key] = val
-                return
-            base = self.heap[ref.key]
-        for p in ref.path[:-1]:
-            base = self.field(base, p)
-        self._set(base, ref.path[-1], val)
+            fr[l] = self._upd(fr[l], ref.path, val)
+            return
+        if not ref.path:
+            self.heap[ref.key] = val
+            return
+        self.heap[ref.key] = self._upd(self.heap[ref.key], ref.path, val)
+
+    def _upd(self, base, path, val):
+        """Write `val` at `path` below `base`; tuples (immutable here) are rebuilt, everything else is updated in place."""
+        if not path:
+            return val
+        head = path[0]
+        if len(path) == 1:
+            if isinstance(base, tuple):
+                lst = list(base)
+                lst[int(head)] = val
+                return tuple(lst)
+            self._set(base, head, val)
+            return base
+        child = self.field(base, head)
+        new = self._upd(child, path[1:], val)
+        if new is not child:
+            if isinstance(base, tuple):
+                lst = list(base)
+                lst[int(head)] = new
+                return tuple(lst)
+            self._set(base, head, new)
+        return base
 
     def _set(self, base, last, val):
         if isinstance(base, Struct):
@@ -534,7 +672,7 @@ class VM:
             raise Unsupported('operand %r' % (o,))
         return self.read_place(fr, o['pl'])
 
-    def binop(self, op, a, b):
+    def binop(self, op, a, b, ty=None):
         if isinstance(a, Ref) and isinstance(b, int) and not isinstance(b, bool):
             # the address of a live allocation (debug builds check raw pointers before use): aligned and non-null
             if op == 'BitAnd':
@@ -552,6 +690,9 @@ class VM:
         if op in ('Lt', 'Le', 'Gt', 'Ge') and isinstance(a, (Seq, Slice)) and isinstance(b, (Seq, Slice)):
             a, b = list(a.items), list(b.items)
             return {'Lt': a < b, 'Le': a <= b, 'Gt': a > b, 'Ge': a >= b}[op]
+        if op in ('Lt', 'Le', 'Gt', 'Ge') and isinstance(a, (Enum, tuple, Struct)) and type(a) is type(b):
+            a, b = self._sort_key(a), self._sort_key(b)
+            return {'Lt': a < b, 'Le': a <= b, 'Gt': a > b, 'Ge': a >= b}[op]
         num = (int, float, str, bool)
         if op in ('Lt', 'Le', 'Gt', 'Ge') and isinstance(a, num) and isinstance(b, num):
             return {'Lt': a < b, 'Le': a <= b, 'Gt': a > b, 'Ge': a >= b}[op]
@@ -568,11 +709,18 @@ class VM:
             elif base == 'Div':
                 if b == 0:
                     raise Panic('division by zero')
-                r = a // b if isinstance(a, int) and isinstance(b, int) else a / b
+                if isinstance(a, int) and isinstance(b, int):
+                    r = abs(a) // abs(b) * (1 if (a < 0) == (b < 0) else -1)      # truncating, as Rust divides
+                else:
+                    r = a / b
             elif base == 'Rem':
                 if b == 0:
                     raise Panic('remainder by zero')
-                r = a % b
+                if isinstance(a, int) and isinstance(b, int):
+                    r = abs(a) % abs(b) * (1 if a >= 0 else -1)
+                else:
+                    import math
+                    r = math.fmod(a, b)
             elif base == 'BitAnd':
                 r = a & b
             elif base == 'BitOr':
@@ -585,8 +733,14 @@ class VM:
                 r = a >> b
             else:
                 raise Unsupported('binary ' + op)
+            ety = (ty or '').strip('() ').split(',')[0].strip() if ty else None
+            rg = int_range(ety)
             if op.endswith('WithOverflow'):
+                if rg and isinstance(r, int):
+                    return (wrap_int(r, ety), not (rg[0] <= r <= rg[1]))
                 return (r, isinstance(r, int) and (r < 0 or r >= 1 << 64))
+            if rg and isinstance(r, int) and base in ('Add', 'Sub', 'Mul', 'Shl') and not (rg[0] <= r <= rg[1]):
+                return wrap_int(r, ety)          # plain (unchecked / wrapping) arithmetic wraps
             return r
         raise Unsupported('binary %s on %r, %r' % (op, a, b))
 
@@ -627,7 +781,9 @@ class VM:
                 return Closure(rv.get('def'), ops)
             raise Unsupported('aggregate %s' % ak)
         if k == 'bin':
-            return self.binop(rv['op'], self.operand(fr, rv['a']), self.operand(fr, rv['b']))
+            ty_ = getattr(self, '_dest_ty', None)
+            self._dest_ty = None
+            return self.binop(rv['op'], self.operand(fr, rv['a']), self.operand(fr, rv['b']), ty_)
         if k == 'un':
             a = self.operand(fr, rv['a'])
             if rv['op'] == 'Not':
@@ -649,15 +805,40 @@ class VM:
         if k == 'cast':
             v = self.operand(fr, rv['op'])
             ck = rv.get('ck', '')
+            ty = (rv.get('ty') or '').strip()
             if ck.startswith('IntToFloat'):
                 return float(v)
             if ck.startswith('FloatToInt'):
-                return int(v)
-            if ck.startswith('IntToInt') and isinstance(v, str) and len(v) == 1:
-                return ord(v)
+                rg = int_range(ty) or (0, (1 << 64) - 1)
+                if v != v:
+                    return 0
+                if v in (float('inf'), float('-inf')):
+                    return rg[1] if v > 0 else rg[0]
+                return min(max(int(v), rg[0]), rg[1])         # saturating, as `as` is
+            if ck.startswith('IntToInt'):
+                if isinstance(v, str) and len(v) == 1:
+                    v = ord(v)
+                if isinstance(v, bool):
+                    v = int(v)
+                if isinstance(v, Enum) and not v.payload:
+                    a = self.facts.adts.get(v.adt)
+                    if a:
+                        v = [x['name'] for x in a['variants']].index(v.variant)
+                if isinstance(v, int):
+                    if ty == 'char':
+                        return chr(v)
+                    if int_range(ty):
+                        return wrap_int(v, ty)
+                return v
+            if ck.startswith('Transmute') and isinstance(v, Struct) and v.name == 'NonNull':
+                return v.fields['0']
             return v
         if k == 'repeat':
-            raise Unsupported('array repeat')
+            n_ = rv.get('n')
+            if n_ is None or n_ > 1 << 16:
+                raise Unsupported('array repeat of unknown / huge length')
+            x = self.operand(fr, rv['op'])
+            return Seq([copy.deepcopy(x) if isinstance(x, (Struct, Enum, Seq)) else x for _ in range(n_)])
         raise Unsupported('rvalue ' + k)
 
     # -- calls --------------------------------------------------------------------------------------
@@ -680,6 +861,9 @@ class VM:
         d = self.deref
         a0 = d(args[0]) if args else None
         last = name.split('::')[-1]
+        r_ = self._std_extra(name, callee, args, t, a0, last)
+        if r_ is not NotImplemented:
+            return r_
         if name in IDENTITY:
             if name == 'IntoIterator::into_iter' or name == 'Iterator::peekable':
                 if isinstance(a0, (Seq, Slice)):
@@ -698,6 +882,14 @@ class VM:
                 return Some(a0.payload[0])
             if name in ('Deref::deref', 'DerefMut::deref_mut', 'AsRef::as_ref', 'Borrow::borrow') and isinstance(a0, (Struct, Seq, Enum)):
                 return args[0]
+            if name in ('DerefMut::deref_mut', 'String::as_mut_str') and isinstance(args[0], Ref):
+                r_ = args[0]              # a `&mut str` / `&mut T` handed on: writes must reach the owner
+                for _ in range(8):
+                    inner = self.load(r_)
+                    if not isinstance(inner, Ref):
+                        break
+                    r_ = inner
+                return r_
             return a0
         # --- equality / ordering
         if name in ('PartialEq::eq', 'PartialEq::ne'):
@@ -718,7 +910,7 @@ class VM:
                 self.find_impl(a0.name, 'core::iter::traits::iterator::Iterator', 'next'):
             if last == 'into_iter':
                 return args[0]
-            return self.builtin(name, callee, [Iter(self.materialise(a0))] + list(args[1:]), t)
+            return self.builtin(name, callee, [Iter(src=self._materialise_gen(a0))] + list(args[1:]), t)
         if name in ('Index::index', 'IndexMut::index_mut') and isinstance(a0, str):
             r = d(args[1])
             b = a0.encode('utf-8')
@@ -1012,9 +1204,9 @@ class VM:
         if last == 'new_uninit' and name.startswith('Box') and not args:
             # `vec![a, b]` lowers to Box::new_uninit + a write of the array through the raw pointer + box_assume_init_into_vec_unsafe
             cell = Struct('MaybeUninit', {'1': Struct('ManuallyDrop', {'0': Struct('MaybeDangling', {'0': None})})})
-            return Struct('Box', {'0': Struct('Unique', {'0': Ref('obj', cell)})})
+            return Struct('Box', {'0': Struct('Unique', {'0': Struct('NonNull', {'0': Ref('obj', cell)})})})
         if last == 'box_assume_init_into_vec_unsafe':
-            cell = d(a0.fields['0'].fields['0'])
+            cell = d(a0.fields['0'].fields['0'].fields['0'])
             arr = cell.fields['1'].fields['0'].fields['0']
             if not isinstance(arr, Seq):
                 raise Unsupported('box_assume_init_into_vec_unsafe of an unwritten box')
@@ -1041,223 +1233,9 @@ class VM:
             return ''
         # --- iterators
         if isinstance(a0, Iter) and name.split('::')[0] in ('Iterator', 'DoubleEndedIterator', 'Peekable', 'Rev', 'Enumerate', 'Chars', 'CharIndices', 'Map', 'Filter', 'IntoIterator', 'Skip', 'Take', 'Zip', 'Chain', 'Cloned', 'Copied',
-                                                               'ExactSizeIterator', 'Drain', 'IntoIter', 'Iter', 'SplitWhitespace', 'Fuse'):
-            it = a0
-            if last == 'next':
-                return it.next()
-            if last in ('all', 'any'):
-                pr = self._pred(args[1])
-                rest = it.rest()
-                it.pos = len(it.items)
-                return all(pr(x) for x in rest) if last == 'all' else any(pr(x) for x in rest)
-            if last == 'enumerate':
-                return Iter([(i, x) for i, x in enumerate(it.rest())])
-            if last == 'rev':
-                return Iter(list(reversed(it.rest())))
-            if last == 'map':
-                return Iter([self.call_value(args[1], [x]) for x in it.rest()])
-            if last == 'filter':
-                return Iter([x for x in it.rest() if self.call_value(args[1], [x])])
-            if last == 'filter_map':
-                out = []
-                for x in it.rest():
-                    r = self.call_value(args[1], [x])
-                    if not is_none(r):
-                        out.append(r.payload[0])
-                return Iter(out)
-            if last == 'take_while':
-                out = []
-                for x in it.rest():
-                    if not self.call_value(args[1], [x]):
-                        break
-                    out.append(x)
-                return Iter(out)
-            if last == 'skip_while':
-                rest = it.rest()
-                i = 0
-                while i < len(rest) and self.call_value(args[1], [rest[i]]):
-                    i += 1
-                return Iter(rest[i:])
-            if last == 'count':
-                return len(it.rest())
-            if last == 'last':
-                r = it.rest()
-                return Some(r[-1]) if r else NONE
-            if last == 'collect':
-                ga = (t or {}).get('gargs', '') if isinstance(t, dict) else ''
-                if ga.rstrip(']').rstrip().endswith(('alloc::string::String', 'alloc::boxed::Box<str, alloc::alloc::Global>')):
-                    # collect::<String>() of chars / &str / String items: concatenation
-                    parts = [d(x) for x in it.rest()]
-                    if all(isinstance(x, str) for x in parts):
-                        return ''.join(parts)
-                    raise Unsupported('collect::<String>() of %r' % (parts[:3],))
-                return Seq(it.rest())
-            if last in ('find', 'position'):
-                pr = self._pred(args[1])
-                for i, x in enumerate(it.rest()):
-                    if pr(x):
-                        it.pos += i + 1
-                        return Some(x if last == 'find' else i)
-                it.pos = len(it.items)
-                return NONE
-            if last == 'peek':
-                return Some(it.items[it.pos]) if it.pos < len(it.items) else NONE
-            if last == 'size_hint':
-                n = len(it.rest())
-                return (n, Some(n))
-            if last == 'len':
-                return len(it.rest())
-            if last == 'nth':
-                k = d(args[1])
-                rest = it.rest()
-                if k < len(rest):
-                    it.pos += k + 1
-                    return Some(rest[k])
-                it.pos = len(it.items)
-                return NONE
-            if last in ('next_back', 'nth_back'):
-                k = d(args[1]) if last == 'nth_back' else 0
-                rest = it.rest()
-                if k < len(rest):
-                    v = rest[len(rest) - 1 - k]
-                    del it.items[it.pos + len(rest) - 1 - k:]
-                    return Some(v)
-                del it.items[it.pos:]
-                return NONE
-            if last == 'next_if':
-                if it.pos < len(it.items) and self.call_value(args[1], [it.items[it.pos]]):
-                    it.pos += 1
-                    return Some(it.items[it.pos - 1])
-                return NONE
-            if last == 'next_if_eq':
-                if it.pos < len(it.items) and it.items[it.pos] == d(args[1]):
-                    it.pos += 1
-                    return Some(it.items[it.pos - 1])
-                return NONE
-            if last == 'skip':
-                return Iter(it.rest()[d(args[1]):])
-            if last == 'take':
-                return Iter(it.rest()[:d(args[1])])
-            if last == 'step_by':
-                return Iter(it.rest()[::d(args[1])])
-            if last == 'chain':
-                o = d(args[1])
-                return Iter(it.rest() + (o.rest() if isinstance(o, Iter) else list(o.items)))
-            if last == 'zip':
-                o = d(args[1])
-                return Iter(list(zip(it.rest(), o.rest() if isinstance(o, Iter) else list(o.items))))
-            if last in ('cloned', 'copied'):
-                return Iter([d(x) for x in it.rest()])
-            if last in ('sum', 'product'):
-                acc = 0 if last == 'sum' else 1
-                for x in it.rest():
-                    acc = acc + d(x) if last == 'sum' else acc * d(x)
-                it.pos = len(it.items)
-                return acc
-            if last in ('min', 'max'):
-                r = [d(x) for x in it.rest()]
-                it.pos = len(it.items)
-                return Some(min(r) if last == 'min' else max(r)) if r else NONE
-            if last == 'fold':
-                acc = args[1]
-                for x in it.rest():
-                    acc = self.call_value(args[2], [acc, x])
-                it.pos = len(it.items)
-                return acc
-            if last == 'try_fold':
-                acc = args[1]
-                while it.pos < len(it.items):
-                    x = it.items[it.pos]
-                    it.pos += 1
-                    r = self.call_value(args[2], [acc, x])
-                    if isinstance(r, Enum) and r.variant in ('Err', 'None', 'Break'):
-                        return r
-                    acc = r.payload[0]
-                # the accumulator is wrapped in the closure's own return type
-                kind = getattr(self, '_try_kind', None)
-                return Enum('core::result::Result', 'Ok', [acc]) if kind != 'Option' else Some(acc)
-            if last == 'for_each':
-                for x in it.rest():
-                    self.call_value(args[1], [x])
-                it.pos = len(it.items)
-                return ()
-            if last == 'rposition':
-                pr = self._pred(args[1])
-                rest = it.rest()
-                for i in range(len(rest) - 1, -1, -1):
-                    if pr(rest[i]):
-                        return Some(i)
-                return NONE
-            if last == 'find_map':
-                for i, x in enumerate(it.rest()):
-                    r = self.call_value(args[1], [x])
-                    if not is_none(r):
-                        it.pos += i + 1
-                        return r
-                it.pos = len(it.items)
-                return NONE
-            if last == 'flat_map' or last == 'flatten':
-                out = []
-                for x in it.rest():
-                    y = self.call_value(args[1], [x]) if last == 'flat_map' else x
-                    y = d(y)
-                    out.extend(y.rest() if isinstance(y, Iter) else (list(y.items) if isinstance(y, (Seq, Slice)) else ([y.payload[0]] if isinstance(y, Enum) and y.payload else [])))
-                return Iter(out)
-            if last == 'map_while':
-                out = []
-                for x in it.rest():
-                    r = self.call_value(args[1], [x])
-                    if is_none(r):
-                        break
-                    out.append(r.payload[0])
-                return Iter(out)
-            if last == 'inspect':
-                for x in it.rest():
-                    self.call_value(args[1], [x])
-                return it
-            if last == 'unzip':
-                pairs = [d(x) for x in it.rest()]
-                it.pos = len(it.items)
-                return (Seq([p_[0] for p_ in pairs]), Seq([p_[1] for p_ in pairs]))
-            if last == 'partition':
-                a_, b_ = [], []
-                for x in it.rest():
-                    (a_ if self.call_value(args[1], [x]) else b_).append(x)
-                it.pos = len(it.items)
-                return (Seq(a_), Seq(b_))
-            if last == 'try_for_each':
-                while it.pos < len(it.items):
-                    x = it.items[it.pos]
-                    it.pos += 1
-                    r = self.call_value(args[1], [x])
-                    if isinstance(r, Enum) and r.variant in ('Err', 'None', 'Break'):
-                        return r
-                return Enum('core::result::Result', 'Ok', [()])
-            if last in ('max_by_key', 'min_by_key'):
-                r = it.rest()
-                it.pos = len(it.items)
-                if not r:
-                    return NONE
-                ks = [d(self.call_value(args[1], [x])) for x in r]
-                best = max(range(len(r)), key=lambda i: (ks[i], i)) if last == 'max_by_key' else min(range(len(r)), key=lambda i: (ks[i], i))
-                return Some(r[best])
-            if last == 'scan':
-                cell = [args[1]]
-                self.heap_counter = getattr(self, 'heap_counter', 0) + 1
-                key = '$scan%d' % self.heap_counter
-                self.heap[key] = args[1]
-                out = []
-                for x in it.rest():
-                    r = self.call_value(args[2], [Ref('heap', key), x])
-                    if is_none(r):
-                        break
-                    out.append(r.payload[0])
-                del self.heap[key]
-                return Iter(out)
-            if last == 'eq':
-                o = d(args[1])
-                return [d(x) for x in it.rest()] == [d(x) for x in (o.rest() if isinstance(o, Iter) else o.items)]
-            raise Unsupported('iterator method ' + name)
+                                                               'ExactSizeIterator', 'Drain', 'IntoIter', 'Iter', 'SplitWhitespace', 'Fuse', 'FilterMap', 'TakeWhile', 'SkipWhile', 'MapWhile', 'StepBy', 'FlatMap', 'Flatten',
+                                                               'Inspect', 'Scan', 'Split', 'Bytes', 'IterMut', 'FusedIterator', 'Successors', 'FromFn', 'Once', 'Windows', 'Chunks'):
+            return self._iter_method(a0, last, name, args, t)
         if isinstance(a0, (Slice, Seq)) and name.split('::')[0] in ('slice', '[T]', 'Vec') and last in (
                 'len', 'is_empty', 'iter', 'copy_from_slice', 'swap_with_slice', 'split_at_mut', 'split_at', 'to_vec', 'first', 'last', 'fill', 'as_slice',
                 'as_mut_slice', 'iter_mut', 'contains', 'starts_with', 'ends_with', 'clone_from_slice', 'reverse', 'get', 'get_mut', 'first_mut',
@@ -1422,6 +1400,15 @@ class VM:
                     raise Panic('insert index %d > len %d' % (i, len(q.items)))
                 q.items.insert(i, args[2])
                 return ()
+            if last == 'splice':
+                r = d(args[1])
+                s_ = r.fields.get('start', 0)
+                e_ = r.fields.get('end', len(q.items)) + (1 if r.name in ('RangeInclusive', 'RangeToInclusive') else 0)
+                if s_ > e_ or e_ > len(q.items):
+                    raise Panic('splice range %d..%d out of bounds (len %d)' % (s_, e_, len(q.items)))
+                removed = q.items[s_:e_]
+                q.items[s_:e_] = self._as_iter(args[2]).drain()
+                return Iter(removed)
             if last == 'drain':
                 r = d(args[1])
                 s_ = r.fields.get('start', 0)
@@ -1521,9 +1508,11 @@ class VM:
             if last == 'replace':
                 self.store(args[0], Some(args[1]))
                 return a0
-            if last == 'insert' or last == 'get_or_insert':
+            if last == 'insert' or (last == 'get_or_insert' and a0.variant == 'None'):
                 self.store(args[0], Some(args[1]))
-                return args[1]
+            if last in ('insert', 'get_or_insert'):
+                r0 = args[0]
+                return Ref(r0.kind, r0.key, r0.path + (0,)) if isinstance(r0, Ref) else self.load(r0).payload[0]
             if last == 'is_some':
                 return a0.variant == 'Some'
             if last == 'is_none':
@@ -1651,10 +1640,10 @@ class VM:
         if name == 'FromResidual::from_residual':
             return a0
         # --- format!: the template comes from the pre-lowering AST (facts.format_args, keyed by the macro call-site span)
-        if name in ('Argument::new_display', 'Argument::new_debug', 'Argument::new_lower_hex'):
-            if name != 'Argument::new_display':
-                raise Unsupported('format argument with %s' % name)
-            return ('$fmtarg', d(args[0]))
+        if name in ('Argument::new_display', 'Argument::new_debug'):
+            return ('$fmtarg', args[0])
+        if name.startswith('Argument::new_'):
+            raise Unsupported('format argument with %s' % name)
         if name in ('Arguments::new', 'Arguments::new_v1', 'Arguments::new_const', 'Arguments::from_str', 'Arguments::new_v1_formatted'):
             vals = []
             for a in args:
@@ -1669,18 +1658,7 @@ class VM:
             fa = idx.get(a0[2]) or idx.get(t.get('sp') if t else None)
             if fa is None:
                 raise Unsupported('format! template not found for %s' % (a0[2],))
-            out = ''
-            for pc in fa['pieces']:
-                if 'lit' in pc:
-                    out += pc['lit']
-                    continue
-                if not (pc.get('trait') == 'Display' and pc.get('plain')) or pc['arg'] >= len(a0[1]):
-                    raise Unsupported('format placeholder %r' % (pc,))
-                v = a0[1][pc['arg']]
-                if isinstance(v, bool) or not isinstance(v, (str, int)):
-                    raise Unsupported('format argument %r' % (v,))
-                out += str(v)
-            return out
+            return self.render_format(fa, a0[1])
         if name in ('repeat::repeat', 'sources::repeat', 'iter::repeat'):
             return Repeat(args[0])
         if name in ('repeat_n::repeat_n', 'iter::repeat_n', 'sources::repeat_n'):
@@ -1772,6 +1750,38 @@ class VM:
             if not a0:
                 return NONE
             return Some(self.call_value(args[1], [])) if last == 'then' else Some(args[1])
+        if isinstance(a0, float) and re.match(r'^(std|core)::f(64|32)::<impl f(64|32)>::', callee or '') and last in (
+                'round', 'floor', 'ceil', 'trunc', 'fract', 'sqrt', 'powi', 'powf', 'min', 'max', 'is_finite', 'is_infinite', 'is_sign_negative', 'is_sign_positive',
+                'signum', 'mul_add', 'to_bits', 'clamp', 'round_ties_even', 'log10', 'exp', 'ln'):
+            import math
+            b = d(args[1]) if len(args) > 1 else None
+            if a0 != a0 or a0 in (float('inf'), float('-inf')):
+                if last in ('is_finite', 'is_infinite'):
+                    return (last == 'is_infinite') == (a0 == a0)
+                if last in ('round', 'floor', 'ceil', 'trunc'):
+                    return a0
+                raise Unsupported('f64::%s of %r' % (last, a0))
+            if last == 'round':
+                return float(math.floor(abs(a0) + 0.5)) * (1.0 if a0 >= 0 else -1.0)      # half away from zero
+            if last in ('floor', 'ceil', 'trunc'):
+                return float(getattr(math, last)(a0))
+            if last == 'fract':
+                return a0 - float(math.trunc(a0))
+            if last == 'sqrt':
+                return math.sqrt(a0) if a0 >= 0 else float('nan')
+            if last in ('powi', 'powf'):
+                return float(a0 ** b)
+            if last in ('min', 'max'):
+                return min(a0, b) if last == 'min' else max(a0, b)
+            if last in ('is_finite', 'is_infinite'):
+                return last == 'is_finite'
+            if last in ('is_sign_negative', 'is_sign_positive'):
+                return (math.copysign(1.0, a0) < 0) == (last == 'is_sign_negative')
+            if last == 'signum':
+                return math.copysign(1.0, a0)
+            if last == 'clamp':
+                return min(max(a0, b), d(args[2]))
+            raise Unsupported('f64::' + last)
         if isinstance(a0, float) and last in ('is_nan', 'recip', 'abs'):
             return {'is_nan': a0 != a0, 'recip': (1.0 / a0) if a0 else float('inf'), 'abs': abs(a0)}[last]
         if isinstance(a0, int) and not isinstance(a0, bool) and last in ('saturating_sub', 'wrapping_sub', 'checked_sub', 'saturating_add', 'checked_add', 'min', 'max', 'pow'):
@@ -1792,6 +1802,1088 @@ class VM:
                 return a0 ** b
         return NotImplemented
 
+    # -- more of std, checked against compiled Rust by tools/vmprobe (conformance probes) --------------------------------
+    def display(self, v, debug=False):
+        v = self.deref(v)
+        if isinstance(v, bool):
+            return 'true' if v else 'false'
+        if isinstance(v, str):
+            if debug:
+                return rust_debug_str(v) if len(v) != 1 or True else v
+            return v
+        if isinstance(v, int):
+            return str(v)
+        if isinstance(v, float):
+            return fmt_float(v, debug)
+        if v == () and debug:
+            return '()'
+        if debug and isinstance(v, Enum) and v.variant in ('Some', 'None', 'Ok', 'Err'):
+            return v.variant + ('(%s)' % ', '.join(self.display(x, True) for x in v.payload) if v.payload else '')
+        if debug and isinstance(v, (Seq, Slice)):
+            return '[%s]' % ', '.join(self.display(x, True) for x in v.items)
+        if debug and isinstance(v, tuple):
+            return '(%s%s)' % (', '.join(self.display(x, True) for x in v), ',' if len(v) == 1 else '')
+        if isinstance(v, Struct):
+            tr = 'core::fmt::Debug' if debug else 'core::fmt::Display'
+            imp = self.find_impl(v.name, tr, 'fmt')
+            if imp:
+                self.heap_counter = getattr(self, 'heap_counter', 0) + 1
+                key = '$fmt%d' % self.heap_counter
+                self.heap[key] = ''
+                self.run(self.facts.mir_body(imp), [v, Ref('heap', key)])
+                return self.heap.pop(key)
+        raise Unsupported('%s of %r' % ('Debug' if debug else 'Display', v))
+
+    def _spec(self, txt, opts, v):
+        """Apply width / fill / alignment / sign / zero padding / precision of a format placeholder."""
+        g = lambda k: re.search(k + r': ([^,}]+(?:\([^)]*\))?\)?)', opts)       # noqa: E731
+        def num(k):
+            m_ = re.search(k + r': Some\(Literal\((\d+)\)\)', opts)
+            if m_:
+                return int(m_.group(1))
+            if re.search(k + r': Some\(', opts):
+                raise Unsupported('format %s taken from an argument' % k)
+            return None
+        width, prec = num('width'), num('precision')
+        v = self.deref(v)
+        if prec is not None:
+            if isinstance(v, float):
+                from decimal import Decimal, ROUND_HALF_EVEN
+                txt = format(Decimal(v).quantize(Decimal(1).scaleb(-prec), rounding=ROUND_HALF_EVEN), 'f') if v == v and abs(v) != float('inf') else txt
+            elif isinstance(v, str):
+                txt = txt[:prec]
+        if 'sign: Some(Plus)' in opts and isinstance(v, (int, float)) and not isinstance(v, bool) and not txt.startswith('-'):
+            txt = '+' + txt
+        if 'alternate: true' in opts or 'debug_hex: Some' in opts:
+            raise Unsupported('format flag # / x?')
+        if width is None or len(txt) >= width:
+            return txt
+        pad = width - len(txt)
+        if 'zero_pad: true' in opts and isinstance(v, (int, float)) and not isinstance(v, bool):
+            sign = txt[0] if txt[:1] in '+-' else ''
+            return sign + '0' * pad + txt[len(sign):]
+        m_ = re.search(r"fill: Some\('(.)'\)", opts)
+        fill = m_.group(1) if m_ else ' '
+        al = re.search(r'alignment: Some\((\w+)\)', opts)
+        al = al.group(1) if al else ('Right' if isinstance(v, (int, float)) and not isinstance(v, bool) else 'Left')
+        if al == 'Left':
+            return txt + fill * pad
+        if al == 'Right':
+            return fill * pad + txt
+        return fill * (pad // 2) + txt + fill * (pad - pad // 2)
+
+    def render_format(self, fa, vals):
+        """The text of a format_args! whose template is `fa` (pre-lowering AST) and whose run-time arguments are `vals`.
+        rustc inlines literal arguments of plain `{}` placeholders into the template and drops them from the argument array."""
+        lit_re = re.compile(r'^(?:"((?:[^"\\\\]|\\\\.)*)"|(\d[\d_]*)(?:[ui](?:8|16|32|64|128|size))?)$')
+        n_args = len(fa['args'])
+        inlined = {}
+        for i, a in enumerate(fa['args']):
+            m_ = lit_re.match(a['expr'].strip())
+            uses = [pc for pc in fa['pieces'] if pc.get('arg') == i]
+            if m_ and uses and all(pc.get('trait') == 'Display' and pc.get('plain') for pc in uses):
+                inlined[i] = rust_str('"%s"' % m_.group(1)) if m_.group(1) is not None else str(int(m_.group(2).replace('_', '')))
+        remaining = [i for i in range(n_args) if i not in inlined]
+        if len(remaining) != len(vals):
+            # older / newer lowering: fall back to "nothing inlined" when that fits
+            if n_args == len(vals):
+                inlined, remaining = {}, list(range(n_args))
+            else:
+                raise Unsupported('format! with %d template arguments but %d run-time arguments' % (n_args, len(vals)))
+        # the run-time array: the arguments themselves when each is used exactly once and in order, else one entry per distinct
+        # (argument, trait) pair in order of first use in the template
+        uses = []
+        for pc in fa['pieces']:
+            if 'lit' not in pc and pc['arg'] not in inlined and (pc['arg'], pc.get('trait')) not in uses:
+                uses.append((pc['arg'], pc.get('trait')))
+        in_order = [u[0] for u in uses] == remaining
+        if in_order or len(uses) != len(vals):
+            slot = {(i, None): k for k, i in enumerate(remaining)}
+            key_of = lambda pc: (pc['arg'], None)          # noqa: E731
+        else:
+            slot = {u: k for k, u in enumerate(uses)}
+            key_of = lambda pc: (pc['arg'], pc.get('trait'))   # noqa: E731
+        out = ''
+        for pc in fa['pieces']:
+            if 'lit' in pc:
+                out += pc['lit']
+                continue
+            i = pc['arg']
+            if i in inlined:
+                out += inlined[i]
+                continue
+            if pc.get('trait') not in ('Display', 'Debug') or key_of(pc) not in slot:
+                raise Unsupported('format placeholder %r' % (pc,))
+            v = vals[slot[key_of(pc)]]
+            txt = self.display(v, pc['trait'] == 'Debug')
+            if not pc.get('plain'):
+                if 'opts' not in pc:
+                    raise Unsupported('format placeholder with options (facts lack them)')
+                txt = self._spec(txt, pc['opts'], v)
+            out += txt
+        return out
+
+    def _std_extra(self, name, callee, args, t, a0, last):
+        d = self.deref
+        callee = callee or ''
+        if name in ('ToString::to_string', 'SpecToString::spec_to_string') and not isinstance(a0, str):
+            return self.display(a0)
+        if name in ('From::from', 'Into::into', 'TryFrom::try_from', 'TryInto::try_into') and len(args) == 1 and isinstance(a0, (bool, int, float, str)):
+            m_ = re.match(r'^<(.+?) as core::convert::(?:Try)?(From|Into)<(.+)>>::\w+$', callee)
+            ga_ = [x.strip() for x in ((t or {}).get('gargs', '') if isinstance(t, dict) else '').strip('[]').split(',')]
+            if not m_ and len(ga_) == 2 and all(re.match(r'^&?[\w:]+$', x) for x in ga_):
+                m_ = True
+                dst, src = (ga_[0], ga_[1]) if 'From' in name else (ga_[1], ga_[0])
+            elif m_:
+                dst, src = (m_.group(1), m_.group(3)) if m_.group(2) == 'From' else (m_.group(3), m_.group(1))
+            if m_:
+                dst, src = dst.strip().lstrip('&'), src.strip().lstrip('&')
+                v_ = a0
+                if isinstance(v_, str) and len(v_) == 1 and src == 'char' and (int_range(dst) or dst in ('f64', 'f32')):
+                    v_ = ord(v_)
+                if isinstance(v_, bool) and (int_range(dst) or dst in ('f64', 'f32')):
+                    v_ = int(v_)
+                conv = NotImplemented
+                if isinstance(v_, int) and not isinstance(v_, bool) and dst == 'char':
+                    conv = chr(v_) if (0 <= v_ < 0xD800 or 0xE000 <= v_ <= 0x10FFFF) else None
+                elif isinstance(v_, int) and not isinstance(v_, bool) and int_range(dst):
+                    lo_, hi_ = int_range(dst)
+                    conv = v_ if lo_ <= v_ <= hi_ else None
+                elif isinstance(v_, (int, float)) and not isinstance(v_, bool) and dst in ('f64', 'f32'):
+                    conv = float(v_)
+                if conv is not NotImplemented:
+                    if name.startswith('Try'):
+                        return Enum('core::result::Result', 'Ok', [conv]) if conv is not None else Enum('core::result::Result', 'Err', ['TryFromIntError'])
+                    if conv is None:
+                        raise Unsupported('lossy From conversion %s -> %s' % (src, dst))
+                    return conv
+        if callee in ('core::char::methods::<impl char>::from_u32', 'core::char::from_u32', 'core::char::convert::from_u32') and isinstance(a0, int):
+            return Some(chr(a0)) if (0 <= a0 < 0xD800 or 0xE000 <= a0 <= 0x10FFFF) else NONE
+        if callee in ('core::char::methods::<impl char>::from_digit', 'core::char::from_digit', 'core::char::convert::from_digit') and isinstance(a0, int):
+            radix = d(args[1])
+            return Some('0123456789abcdefghijklmnopqrstuvwxyz'[a0]) if a0 < radix else NONE
+        if name == 'Clone::clone' and isinstance(a0, Iter):
+            return copy.deepcopy(a0)
+        if name in ('Box::new',) and len(args) == 1:
+            cell = Seq([args[0]])
+            return Struct('Box', {'0': Struct('Unique', {'0': Struct('NonNull', {'0': Ref('obj', cell, (0,))})})})
+        if name == 'Deref::deref' and isinstance(a0, Struct) and a0.name == 'Box':
+            return a0.fields['0'].fields['0'].fields['0']
+        if name.startswith('Ordering::') and isinstance(a0, Enum) and a0.variant in ('Less', 'Equal', 'Greater'):
+            v_ = {'Less': -1, 'Equal': 0, 'Greater': 1}[a0.variant]
+            tbl = {'is_eq': v_ == 0, 'is_ne': v_ != 0, 'is_lt': v_ < 0, 'is_gt': v_ > 0, 'is_le': v_ <= 0, 'is_ge': v_ >= 0}
+            if last in tbl:
+                return tbl[last]
+            if last == 'reverse':
+                return Enum(a0.adt, {'Less': 'Greater', 'Equal': 'Equal', 'Greater': 'Less'}[a0.variant])
+            if last == 'then':
+                return a0 if v_ != 0 else d(args[1])
+            if last == 'then_with':
+                return a0 if v_ != 0 else d(self.call_value(args[1], []))
+        if last == 'unwrap_or_default' and isinstance(a0, Enum) and a0.variant in ('Some', 'Ok'):
+            return a0.payload[0]
+        if isinstance(a0, Seq) and name.startswith('VecDeque::') and last in ('rotate_left', 'rotate_right', 'front_mut', 'back_mut', 'get_mut', 'get', 'iter_mut', 'swap'):
+            n_ = len(a0.items)
+            if last in ('rotate_left', 'rotate_right'):
+                k = d(args[1])
+                if k > n_:
+                    raise Panic('assertion failed: n <= self.len()')
+                k = k if last == 'rotate_left' else n_ - k
+                a0.items[:] = a0.items[k:] + a0.items[:k]
+                return ()
+            if last in ('front_mut', 'back_mut'):
+                return Some(Ref('elem', (a0, 0 if last == 'front_mut' else n_ - 1))) if n_ else NONE
+            if last == 'get':
+                i = d(args[1])
+                return Some(Ref('elem', (a0, i))) if i < n_ else NONE
+            if last == 'get_mut':
+                i = d(args[1])
+                return Some(Ref('elem', (a0, i))) if i < n_ else NONE
+            if last == 'iter_mut':
+                return Iter([Ref('elem', (a0, i)) for i in range(n_)])
+            if last == 'swap':
+                i, k = d(args[1]), d(args[2])
+                if i >= n_ or k >= n_:
+                    raise Panic('assertion failed: i < self.len()')
+                a0.items[i], a0.items[k] = a0.items[k], a0.items[i]
+                return ()
+        if isinstance(a0, str) and name in ('String::drain',):
+            r = d(args[1])
+            b_ = a0.encode('utf-8')
+            lo, hi = r.fields.get('start', 0), r.fields.get('end', len(b_))
+            if r.name in ('RangeInclusive', 'RangeToInclusive'):
+                hi += 1
+            if lo > hi or hi > len(b_):
+                raise Panic('String::drain range out of bounds')
+            try:
+                head, mid, tail = b_[:lo].decode('utf-8'), b_[lo:hi].decode('utf-8'), b_[hi:].decode('utf-8')
+            except UnicodeDecodeError:
+                raise Panic('String::drain not on a char boundary')
+            self.store(args[0], head + tail)
+            return Iter(list(mid))
+        if callee == 'alloc::vec::from_elem' and len(args) == 2:
+            n_ = d(args[1])
+            if n_ > 1 << 16:
+                raise Unsupported('vec![x; %d]' % n_)
+            x = d(args[0])
+            return Seq([copy.deepcopy(x) if isinstance(x, (Struct, Enum, Seq)) else x for _ in range(n_)])
+        if name == 'array::map' and isinstance(a0, (Seq, Slice)):
+            return Seq([self.call_value(args[1], [x]) for x in a0.items])
+        if last in ('join', 'concat') and isinstance(a0, (Seq, Slice)) and (callee.startswith('alloc::slice::<impl [') or callee.startswith('alloc::str::')):
+            parts = [d(x) for x in a0.items]
+            sep = d(args[1]) if last == 'join' else None
+            if all(isinstance(x, str) for x in parts) and (sep is None or isinstance(sep, str)):
+                return (sep or '').join(parts)
+            if all(isinstance(x, (Seq, Slice)) for x in parts):
+                out = []
+                for i, x in enumerate(parts):
+                    if i and sep is not None:
+                        out.extend(list(sep.items) if isinstance(sep, (Seq, Slice)) else [sep])
+                    out.extend(x.items)
+                return Seq(out)
+        if name in ('RefCell::new', 'Cell::new') and len(args) == 1:
+            return Struct('RefCell', {'value': args[0]})
+        if isinstance(a0, Struct) and a0.name == 'RefCell' and last in ('borrow', 'borrow_mut', 'get_mut', 'into_inner', 'get', 'set', 'take', 'replace'):
+            if last in ('borrow', 'borrow_mut', 'get_mut'):
+                return Ref('obj', a0, ('value',))
+            if last in ('into_inner', 'get'):
+                return a0.fields['value']
+            if last == 'set':
+                a0.fields['value'] = args[1]
+                return ()
+            if last == 'replace':
+                old_ = a0.fields['value']
+                a0.fields['value'] = args[1]
+                return old_
+        if name in ('Extend::extend', 'Vec::extend', 'VecDeque::extend') and isinstance(a0, Seq) and len(args) == 2:
+            a0.items.extend(self._as_iter(args[1]).drain())
+            return ()
+        # operator traits called as functions (`a + &b` on references, String + &str)
+        OPS = {'Add::add': 'Add', 'Sub::sub': 'Sub', 'Mul::mul': 'Mul', 'Div::div': 'Div', 'Rem::rem': 'Rem', 'BitAnd::bitand': 'BitAnd',
+               'BitOr::bitor': 'BitOr', 'BitXor::bitxor': 'BitXor', 'Shl::shl': 'Shl', 'Shr::shr': 'Shr'}
+        if name in OPS and len(args) == 2:
+            a, b = d(args[0]), d(args[1])
+            if isinstance(a, str) and isinstance(b, str) and name == 'Add::add':
+                return a + b
+            if isinstance(a, (int, float)) and isinstance(b, (int, float)):
+                m_ = re.match(r'^<&?(?:mut )?(\w+) as ', callee)
+                ty = m_.group(1) if m_ else None
+                r = self.binop(OPS[name], a, b)
+                rg = int_range(ty)
+                if rg and isinstance(r, int) and not isinstance(r, bool) and not (rg[0] <= r <= rg[1]):
+                    if name in ('Shl::shl', 'Shr::shr'):
+                        return wrap_int(r, ty)
+                    raise Panic('attempt to %s with overflow' % last)
+                return r
+        ASSIGN = {'AddAssign::add_assign': 'Add', 'SubAssign::sub_assign': 'Sub', 'MulAssign::mul_assign': 'Mul', 'DivAssign::div_assign': 'Div',
+                  'RemAssign::rem_assign': 'Rem', 'BitOrAssign::bitor_assign': 'BitOr', 'BitAndAssign::bitand_assign': 'BitAnd', 'BitXorAssign::bitxor_assign': 'BitXor'}
+        if name in ASSIGN and len(args) == 2 and isinstance(a0, (int, float)) and not isinstance(a0, bool) and isinstance(d(args[1]), (int, float)):
+            m_ = re.match(r'^<&?(?:mut )?(\w+) as ', callee)
+            r = self.binop(ASSIGN[name], a0, d(args[1]))
+            rg = int_range(m_.group(1) if m_ else None)
+            if rg and isinstance(r, int) and not (rg[0] <= r <= rg[1]):
+                raise Panic('attempt to %s with overflow' % last)
+            self.store(args[0], r)
+            return ()
+        if name in ('Neg::neg', 'Not::not') and len(args) == 1 and isinstance(a0, (int, float, bool)):
+            if name == 'Not::not':
+                if isinstance(a0, bool):
+                    return not a0
+                m_ = re.match(r'^<&?(?:mut )?(\w+) as ', callee)
+                rg = int_range(m_.group(1) if m_ else 'u64')
+                return (rg[1] - a0) if rg and rg[0] == 0 else ~a0
+            return -a0
+        # integer methods, typed by the impl block named in the callee: core::num::<impl u8>::checked_add
+        m_ = re.match(r'^core::num::<impl (\w+)>::(\w+)$', callee)
+        if m_ and isinstance(a0, int) and not isinstance(a0, bool) and int_range(m_.group(1)):
+            ty, meth = m_.group(1), m_.group(2)
+            lo, hi = int_range(ty)
+            b = d(args[1]) if len(args) > 1 else None
+            fit = lambda v: lo <= v <= hi                         # noqa: E731
+            base = {'add': lambda: a0 + b, 'sub': lambda: a0 - b, 'mul': lambda: a0 * b, 'pow': lambda: a0 ** b,
+                    'div': lambda: None if b == 0 else (abs(a0) // abs(b)) * (1 if (a0 < 0) == (b < 0) else -1),
+                    'rem': lambda: None if b == 0 else abs(a0) % abs(b) * (1 if a0 >= 0 else -1), 'neg': lambda: -a0}
+            for pre in ('checked_', 'saturating_', 'wrapping_', 'overflowing_', 'strict_', 'unchecked_'):
+                if meth.startswith(pre) and meth[len(pre):] in base:
+                    v = base[meth[len(pre):]]()
+                    if pre == 'checked_':
+                        return NONE if v is None or not fit(v) else Some(v)
+                    if v is None:
+                        raise Panic('attempt to divide by zero')
+                    if pre == 'saturating_':
+                        return min(max(v, lo), hi)
+                    if pre == 'wrapping_':
+                        return wrap_int(v, ty)
+                    if pre == 'overflowing_':
+                        return (wrap_int(v, ty), not fit(v))
+                    if not fit(v):
+                        raise Panic('attempt to %s with overflow' % meth)
+                    return v
+            if meth == 'pow':
+                v = a0 ** b
+                if not fit(v):
+                    raise Panic('attempt to multiply with overflow')
+                return v
+            if meth == 'abs_diff':
+                return abs(a0 - b)
+            if meth == 'abs':
+                return abs(a0)
+            if meth == 'signum':
+                return (a0 > 0) - (a0 < 0)
+            if meth == 'count_ones':
+                return bin(a0 & ((1 << (hi - lo).bit_length()) - 1)).count('1')
+            if meth in ('leading_zeros', 'trailing_zeros'):
+                bits = (hi - lo).bit_length()
+                u = a0 & ((1 << bits) - 1)
+                if meth == 'leading_zeros':
+                    return bits - u.bit_length()
+                return bits if u == 0 else (u & -u).bit_length() - 1
+            if meth == 'is_power_of_two':
+                return a0 > 0 and a0 & (a0 - 1) == 0
+            if meth == 'next_power_of_two':
+                return 1 if a0 <= 1 else 1 << (a0 - 1).bit_length()
+            if meth == 'div_ceil':
+                if b == 0:
+                    raise Panic('attempt to divide by zero')
+                return -(-a0 // b)
+            if meth == 'rem_euclid':
+                if b == 0:
+                    raise Panic('attempt to calculate the remainder with a divisor of zero')
+                return a0 % abs(b)
+            if meth == 'div_euclid':
+                if b == 0:
+                    raise Panic('attempt to divide by zero')
+                q = a0 // b if b > 0 else -(a0 // -b)
+                return q
+            if meth == 'isqrt':
+                import math
+                return math.isqrt(a0)
+            if meth == 'is_multiple_of':
+                return a0 == 0 if b == 0 else a0 % b == 0
+            if meth in ('min_value', 'max_value'):
+                return lo if meth == 'min_value' else hi
+            if ty == 'u8':
+                c = chr(a0)
+                if meth in CHAR_PRED and meth.startswith('is_ascii'):
+                    return a0 < 128 and CHAR_PRED[meth](c)
+                if meth == 'is_ascii':
+                    return a0 < 128
+                if meth in ('to_ascii_uppercase', 'to_ascii_lowercase'):
+                    return ord(c.upper() if meth.endswith('uppercase') else c.lower()) if a0 < 128 else a0
+                if meth == 'eq_ignore_ascii_case':
+                    return ascii_lower(c) == ascii_lower(chr(b))
+        if isinstance(a0, int) and not isinstance(a0, bool) and name in ('Ord::clamp', 'cmp::clamp'):
+            lo_, hi_ = d(args[1]), d(args[2])
+            if lo_ > hi_:
+                raise Panic('assertion failed: min <= max')
+            return min(max(a0, lo_), hi_)
+        if name == 'array::from_fn' or callee == 'core::array::from_fn':
+            m2 = re.search(r'(\d+)_usize', (t or {}).get('gargs', '') if isinstance(t, dict) else '')
+            if not m2:
+                raise Unsupported('array::from_fn of unknown length')
+            return Seq([self.call_value(args[0], [i]) for i in range(int(m2.group(1)))])
+        if callee.endswith('successors::successors'):
+            f_ = args[1]
+
+            def g_succ():
+                cur = d(args[0])
+                while not is_none(cur):
+                    x = cur.payload[0]
+                    yield x
+                    cur = d(self.call_value(f_, [_Val(x)]))
+            return Iter(src=g_succ())
+        if callee.endswith('from_fn::from_fn'):
+            f_ = args[0]
+
+            def g_ff():
+                while True:
+                    r = d(self.call_value(f_, []))
+                    if is_none(r):
+                        return
+                    yield r.payload[0]
+            return Iter(src=g_ff())
+        if name in ('String::from_utf8_lossy', 'String::from_utf8') and isinstance(a0, (Seq, Slice)):
+            raw = bytes(a0.items)
+            if name == 'String::from_utf8':
+                try:
+                    return Enum('core::result::Result', 'Ok', [raw.decode('utf-8')])
+                except UnicodeDecodeError:
+                    return Enum('core::result::Result', 'Err', ['FromUtf8Error'])
+            return raw.decode('utf-8', errors='replace')
+        if last == 'unwrap_or_default' and isinstance(a0, Enum) and a0.variant in ('None', 'Err'):
+            ga = ((t or {}).get('gargs', '') if isinstance(t, dict) else '').strip('[] ')
+            ty = ga.split(',')[0].strip()
+            return self._default_of(ty)
+        if last in ('is_some_and', 'is_none_or', 'is_ok_and', 'is_err_and') and isinstance(a0, Enum):
+            has = a0.variant in (('Some', 'Ok') if last != 'is_err_and' else ('Err',))
+            if last == 'is_none_or':
+                return (not has) or bool(self.call_value(args[1], [a0.payload[0]]))
+            return has and bool(self.call_value(args[1], [a0.payload[0]]))
+        if name == 'intrinsics::discriminant_value' and isinstance(a0, Enum):
+            a = self.facts.adts.get(a0.adt)
+            names = [x['name'] for x in a['variants']] if a else ['None', 'Some'] if a0.variant in ('None', 'Some') else ['Ok', 'Err']
+            return names.index(a0.variant)
+        if isinstance(a0, str) and len(a0) == 1 and 'char' in callee and last == 'is_digit':
+            radix = d(args[1])
+            return a0.lower() in '0123456789abcdefghijklmnopqrstuvwxyz'[:radix]
+        if isinstance(a0, str) and last == 'eq_ignore_ascii_case' and isinstance(d(args[1]), str):
+            return ascii_lower(a0) == ascii_lower(d(args[1]))
+        if isinstance(a0, str) and len(a0) == 1 and 'char' in callee and last in ('to_string',):
+            return a0
+        if isinstance(a0, str) and len(a0) == 1 and 'char' in callee and last in ('is_ascii_hexdigit', 'is_ascii_uppercase', 'is_ascii_lowercase', 'is_ascii_graphic', 'is_ascii_control'):
+            o_ = ord(a0)
+            return {'is_ascii_hexdigit': a0 in '0123456789abcdefABCDEF', 'is_ascii_uppercase': 'A' <= a0 <= 'Z', 'is_ascii_lowercase': 'a' <= a0 <= 'z',
+                    'is_ascii_graphic': 33 <= o_ <= 126, 'is_ascii_control': o_ < 32 or o_ == 127}[last]
+        # --- more of str
+        if isinstance(a0, str) and name.split('::')[0] in ('str', 'String') and last in ('split_once', 'rsplit_once', 'rsplit', 'splitn', 'rsplitn', 'rmatches',
+                                                                                           'match_indices', 'split_inclusive', 'rsplit_terminator', 'char_indices_rev'):
+            s_ = a0
+            pi = 2 if last in ('splitn', 'rsplitn') else 1
+            pv = d(args[pi])
+            if isinstance(pv, (Seq, Slice)):
+                pats = [d(x) for x in pv.items]
+            elif isinstance(pv, (Fn, Closure)):
+                pats = None
+            else:
+                pats = [pv]
+            if pats is not None and not all(isinstance(x, str) and x for x in pats):
+                raise Unsupported('pattern %r' % (pv,))
+
+            def m_at(i):
+                if pats is None:
+                    return 1 if i < len(s_) and self.call_value(pv, [s_[i]]) else 0
+                for x in sorted(pats, key=len, reverse=True):
+                    if s_.startswith(x, i):
+                        return len(x)
+                return 0
+            # all non-overlapping matches, left to right: [(start, len)]
+            ms, i = [], 0
+            while i < len(s_):
+                k = m_at(i)
+                if k:
+                    ms.append((i, k))
+                    i += k
+                else:
+                    i += 1
+            if last == 'rmatches':
+                return Iter([s_[a:a + k] for a, k in reversed(ms)])
+            if last == 'match_indices':
+                return Iter([(len(s_[:a].encode('utf-8')), s_[a:a + k]) for a, k in ms])
+            if last == 'split_once':
+                if not ms:
+                    return NONE
+                a, k = ms[0]
+                return Some((s_[:a], s_[a + k:]))
+            if last == 'rsplit_once':
+                if not ms:
+                    return NONE
+                # the last match scanning from the right: for single chars / closures this is the right-most match
+                if pats is not None and any(len(x) > 1 for x in pats):
+                    a = max(s_.rfind(x) for x in pats)
+                    k = max(len(x) for x in pats if s_.startswith(x, a))
+                else:
+                    a, k = ms[-1]
+                return Some((s_[:a], s_[a + k:]))
+
+            def cut(ms_):
+                parts, prev = [], 0
+                for a, k in ms_:
+                    parts.append(s_[prev:a])
+                    prev = a + k
+                parts.append(s_[prev:])
+                return parts
+            if last == 'split_inclusive':
+                parts, prev = [], 0
+                for a, k in ms:
+                    parts.append(s_[prev:a + k])
+                    prev = a + k
+                if prev < len(s_):
+                    parts.append(s_[prev:])
+                return Iter(parts)
+            if pats is not None and any(len(x) > 1 for x in pats) and last in ('rsplit', 'rsplitn', 'rsplit_terminator'):
+                raise Unsupported('reverse split with a multi-character pattern')
+            if last == 'rsplit':
+                return Iter(list(reversed(cut(ms))))
+            if last == 'rsplit_terminator':
+                parts = cut(ms)
+                if parts and parts[-1] == '':
+                    parts.pop()
+                return Iter(list(reversed(parts)))
+            if last == 'splitn':
+                n_ = d(args[1])
+                if n_ == 0:
+                    return Iter([])
+                return Iter(cut(ms[:n_ - 1]))
+            if last == 'rsplitn':
+                n_ = d(args[1])
+                if n_ == 0:
+                    return Iter([])
+                keep = ms[len(ms) - (n_ - 1):] if n_ - 1 <= len(ms) and n_ > 1 else ([] if n_ == 1 else ms)
+                return Iter(list(reversed(cut(keep))))
+        if isinstance(a0, str) and name.split('::')[0] in ('str', 'String') and last in ('extend', 'retain', 'drain', 'remove', 'char_count', 'into_bytes', 'into_boxed_str',
+                                                                                           'as_mut_str', 'capacity', 'reserve', 'shrink_to_fit', 'from_utf8_unchecked', 'trim_ascii'):
+            if last == 'extend':
+                self.store(args[0], a0 + ''.join(d(x) for x in self._as_iter(args[1]).drain()))
+                return ()
+            if last == 'retain':
+                self.store(args[0], ''.join(c for c in a0 if self.call_value(args[1], [c])))
+                return ()
+            if last == 'remove':
+                b_ = a0.encode('utf-8')
+                i = d(args[1])
+                try:
+                    head = b_[:i].decode('utf-8')
+                    tail = b_[i:].decode('utf-8')
+                except UnicodeDecodeError:
+                    raise Panic('String::remove not on a char boundary')
+                if not tail:
+                    raise Panic('cannot remove a char from the end of a string')
+                self.store(args[0], head + tail[1:])
+                return tail[0]
+            if last == 'into_bytes':
+                return Seq(list(a0.encode('utf-8')))
+            if last in ('reserve', 'shrink_to_fit'):
+                return ()
+            if last == 'capacity':
+                return len(a0.encode('utf-8'))
+            if last == 'trim_ascii':
+                return a0.strip(' \t\n\r\x0c')
+        if name in ('Extend::extend', 'String::extend') and isinstance(a0, str):
+            self.store(args[0], a0 + ''.join(d(x) for x in self._as_iter(args[1]).drain()))
+            return ()
+        # --- more of slices / Vec / VecDeque
+        if isinstance(a0, (Seq, Slice)) and last in ('strip_prefix', 'strip_suffix', 'sort', 'sort_unstable', 'sort_by', 'sort_unstable_by', 'sort_by_key',
+                                                      'sort_unstable_by_key', 'sort_by_cached_key', 'dedup', 'dedup_by_key', 'make_contiguous', 'as_slices',
+                                                      'repeat', 'join', 'iter_rev', 'retain_mut', 'last_chunk', 'first_chunk', 'rchunks', 'split_off_first',
+                                                      'contains_key', 'rsplit_array', 'fill_with', 'is_sorted_by_key', 'escape_ascii', 'to_ascii_lowercase',
+                                                      'to_ascii_uppercase', 'eq_ignore_ascii_case', 'is_ascii', 'trim_ascii', 'rev') and \
+                name.split('::')[0] in ('slice', '[T]', 'Vec', 'VecDeque', 'Join', 'array', '<impl [T]>', '<impl [u8]>', 'ascii'):
+            items = [x for x in a0.items]
+            base, off = (a0, 0) if isinstance(a0, Seq) else (a0.seq, a0.lo)
+
+            def write_back(new_items):
+                if isinstance(a0, Seq):
+                    a0.items[:] = new_items
+                else:
+                    if len(new_items) != len(items):
+                        raise Unsupported('length-changing operation on a sub-slice')
+                    a0.seq.items[a0.lo:a0.hi] = new_items
+            if last in ('strip_prefix', 'strip_suffix'):
+                pv = d(args[1])
+                pat = [d(x) for x in (pv.items if isinstance(pv, (Seq, Slice)) else [pv])]
+                vals = [d(x) for x in items]
+                n_ = len(pat)
+                if last == 'strip_prefix':
+                    return Some(Slice(base, off + n_, off + len(items))) if vals[:n_] == pat else NONE
+                return Some(Slice(base, off, off + len(items) - n_)) if n_ <= len(vals) and vals[len(vals) - n_:] == pat else NONE
+            if last in ('sort', 'sort_unstable'):
+                write_back(sorted(items, key=lambda x: self._sort_key(d(x))))
+                return ()
+            if last in ('sort_by', 'sort_unstable_by'):
+                import functools
+                f_ = args[1]
+
+                def cmp_(x, y):
+                    o_ = d(self.call_value(f_, [x, y]))
+                    return {'Less': -1, 'Equal': 0, 'Greater': 1}[o_.variant]
+                write_back(sorted(items, key=functools.cmp_to_key(cmp_)))
+                return ()
+            if last in ('sort_by_key', 'sort_unstable_by_key', 'sort_by_cached_key'):
+                write_back(sorted(items, key=lambda x: self._sort_key(d(self.call_value(args[1], [x])))))
+                return ()
+            if last == 'dedup':
+                out = []
+                for x in items:
+                    if not out or d(out[-1]) != d(x):
+                        out.append(x)
+                write_back(out)
+                return ()
+            if last == 'dedup_by_key':
+                out, keys = [], []
+                for x in items:
+                    k_ = d(self.call_value(args[1], [x]))
+                    if not out or keys[-1] != k_:
+                        out.append(x)
+                        keys.append(k_)
+                write_back(out)
+                return ()
+            if last == 'make_contiguous':
+                return Slice(base, off, off + len(items))
+            if last == 'as_slices':
+                return (Slice(base, off, off + len(items)), Slice(base, off + len(items), off + len(items)))
+            if last == 'repeat':
+                return Seq(items * d(args[1]))
+            if last == 'is_ascii':
+                return all(d(x) < 128 for x in items)
+            if last in ('to_ascii_lowercase', 'to_ascii_uppercase'):
+                f2 = (lambda c: c + 32 if 65 <= c <= 90 else c) if last.endswith('lowercase') else (lambda c: c - 32 if 97 <= c <= 122 else c)
+                return Seq([f2(d(x)) for x in items])
+            if last == 'eq_ignore_ascii_case':
+                lw = lambda v_: [c + 32 if 65 <= c <= 90 else c for c in v_]     # noqa: E731
+                return lw([d(x) for x in items]) == lw([d(x) for x in d(args[1]).items])
+            if last == 'fill_with':
+                write_back([self.call_value(args[1], []) for _ in items])
+                return ()
+        return NotImplemented
+
+    def _sort_key(self, v):
+        if isinstance(v, Struct) and v.name == 'Reverse':
+            return _Rev(self._sort_key(self.deref(list(v.fields.values())[0])))
+        if isinstance(v, Enum):
+            a = self.facts.adts.get(v.adt)
+            names = [x['name'] for x in a['variants']] if a else ['None', 'Some', 'Ok', 'Err', 'Less', 'Equal', 'Greater']
+            return (names.index(v.variant), tuple(self._sort_key(self.deref(x)) for x in v.payload))
+        if isinstance(v, (Seq, Slice)):
+            return tuple(self._sort_key(self.deref(x)) for x in v.items)
+        if isinstance(v, tuple):
+            return tuple(self._sort_key(self.deref(x)) for x in v)
+        if isinstance(v, Struct):
+            return tuple(self._sort_key(self.deref(x)) for x in v.fields.values())
+        return v
+
+    def _default_of(self, ty):
+        ty = ty.strip()
+        if ty == 'bool':
+            return False
+        if int_range(ty):
+            return 0
+        if ty in ('f64', 'f32'):
+            return 0.0
+        if ty in ('alloc::string::String', '&str', 'str', "&'static str") or ty.startswith("&'") and ty.endswith(' str'):
+            return ''
+        if ty.startswith(('alloc::vec::Vec', 'alloc::collections::vec_deque::VecDeque')):
+            return Seq()
+        if ty.startswith('core::option::Option'):
+            return NONE
+        if ty == '()':
+            return ()
+        if ty == 'char':
+            return '\0'
+        imp = [p_ for p_ in self.facts.mir if p_ == '<%s as core::default::Default>::default' % ty]
+        if imp:
+            return self.run(self.facts.mir_body(imp[0]), [])
+        raise Unsupported('Default of ' + ty)
+
+    def _as_iter(self, o):
+        o = self.deref(o)
+        if isinstance(o, Iter):
+            return o
+        if isinstance(o, (Seq, Slice)):
+            return Iter(list(o.items))
+        if isinstance(o, Enum) and o.variant in ('Some', 'None', 'Ok', 'Err'):
+            return Iter(o.payload[:1] if o.variant in ('Some', 'Ok') else [])
+        if isinstance(o, Struct) and o.name in ('Range', 'RangeInclusive'):
+            return Iter(range(o.fields['start'], o.fields['end'] + (1 if o.name == 'RangeInclusive' else 0)))
+        if isinstance(o, Repeat):
+            def gen_rep():
+                while True:
+                    yield o.v
+            return Iter(src=gen_rep())
+        if isinstance(o, str):
+            raise Unsupported('a string used as an iterator')
+        if isinstance(o, Struct) and self.find_impl(o.name, 'core::iter::traits::iterator::Iterator', 'next'):
+            return Iter(src=self._materialise_gen(o))
+        raise Unsupported('not an iterator: %r' % (o,))
+
+    def _try_ok(self, t, acc):
+        """Wrap the final accumulator of try_fold / try_for_each in the closure's own return type (last generic argument)."""
+        ga = ((t or {}).get('gargs', '') if isinstance(t, dict) else '').rstrip('] ')
+        tail = ga.rsplit(', core::', 1)[-1] if ', core::' in ga else ga
+        if 'option::Option<' in tail and 'result::Result<' not in tail.split('option::Option<')[0]:
+            return Some(acc)
+        if 'ControlFlow<' in tail and 'result::Result<' not in tail.split('ControlFlow<')[0] :
+            return Enum('core::ops::control_flow::ControlFlow', 'Continue', [acc])
+        return Enum('core::result::Result', 'Ok', [acc])
+
+    def _iter_method(self, it, last, name, args, t):
+        d = self.deref
+        call = self.call_value
+
+        def lazy(gen):
+            return Iter(src=gen)
+        if last == 'next':
+            return it.next()
+        if last in ('by_ref', 'fuse', 'peekable', 'into_iter', 'iter'):
+            return args[0]
+        if last in ('all', 'any'):
+            pr = self._pred(args[1])
+            while True:
+                r = it.next()
+                if is_none(r):
+                    return last == 'all'
+                if pr(r.payload[0]) != (last == 'all'):
+                    return last == 'any'
+        if last == 'enumerate':
+            def g_enum():
+                i = 0
+                while True:
+                    r = it.next()
+                    if is_none(r):
+                        return
+                    yield (i, r.payload[0])
+                    i += 1
+            return lazy(g_enum())
+        if last == 'rev':
+            return Iter(list(reversed(it.drain())))
+        if last == 'map':
+            def g_map():
+                while True:
+                    r = it.next()
+                    if is_none(r):
+                        return
+                    yield call(args[1], [r.payload[0]])
+            return lazy(g_map())
+        if last == 'filter':
+            def g_filter():
+                while True:
+                    r = it.next()
+                    if is_none(r):
+                        return
+                    if call(args[1], [r.payload[0]]):
+                        yield r.payload[0]
+            return lazy(g_filter())
+        if last == 'filter_map':
+            def g_fm():
+                while True:
+                    r = it.next()
+                    if is_none(r):
+                        return
+                    y = call(args[1], [r.payload[0]])
+                    if not is_none(y):
+                        yield y.payload[0]
+            return lazy(g_fm())
+        if last == 'take_while':
+            def g_tw():
+                while True:
+                    r = it.next()
+                    if is_none(r) or not call(args[1], [r.payload[0]]):
+                        return
+                    yield r.payload[0]
+            return lazy(g_tw())
+        if last == 'skip_while':
+            def g_sw():
+                skipping = True
+                while True:
+                    r = it.next()
+                    if is_none(r):
+                        return
+                    if skipping and call(args[1], [r.payload[0]]):
+                        continue
+                    skipping = False
+                    yield r.payload[0]
+            return lazy(g_sw())
+        if last == 'map_while':
+            def g_mw():
+                while True:
+                    r = it.next()
+                    if is_none(r):
+                        return
+                    y = call(args[1], [r.payload[0]])
+                    if is_none(y):
+                        return
+                    yield y.payload[0]
+            return lazy(g_mw())
+        if last == 'inspect':
+            def g_insp():
+                while True:
+                    r = it.next()
+                    if is_none(r):
+                        return
+                    call(args[1], [r.payload[0]])
+                    yield r.payload[0]
+            return lazy(g_insp())
+        if last in ('flat_map', 'flatten'):
+            def g_flat():
+                while True:
+                    r = it.next()
+                    if is_none(r):
+                        return
+                    y = call(args[1], [r.payload[0]]) if last == 'flat_map' else r.payload[0]
+                    sub = self._as_iter(y)
+                    while True:
+                        q = sub.next()
+                        if is_none(q):
+                            break
+                        yield q.payload[0]
+            return lazy(g_flat())
+        if last == 'scan':
+            self.heap_counter = getattr(self, 'heap_counter', 0) + 1
+            key = '$scan%d' % self.heap_counter
+            self.heap[key] = args[1]
+
+            def g_scan():
+                while True:
+                    r = it.next()
+                    if is_none(r):
+                        return
+                    y = call(args[2], [Ref('heap', key), r.payload[0]])
+                    if is_none(y):
+                        return
+                    yield y.payload[0]
+            return lazy(g_scan())
+        if last == 'skip':
+            k = d(args[1])
+
+            def g_skip():
+                for _ in range(k):
+                    if is_none(it.next()):
+                        return
+                while True:
+                    r = it.next()
+                    if is_none(r):
+                        return
+                    yield r.payload[0]
+            return lazy(g_skip())
+        if last == 'take':
+            k = d(args[1])
+
+            def g_take():
+                for _ in range(k):
+                    r = it.next()
+                    if is_none(r):
+                        return
+                    yield r.payload[0]
+            return lazy(g_take())
+        if last == 'step_by':
+            k = d(args[1])
+            if k == 0:
+                raise Panic('step_by(0)')
+
+            def g_step():
+                while True:
+                    r = it.next()
+                    if is_none(r):
+                        return
+                    yield r.payload[0]
+                    for _ in range(k - 1):
+                        if is_none(it.next()):
+                            return
+            return lazy(g_step())
+        if last == 'chain':
+            o = self._as_iter(args[1])
+
+            def g_chain():
+                for src in (it, o):
+                    while True:
+                        r = src.next()
+                        if is_none(r):
+                            break
+                        yield r.payload[0]
+            return lazy(g_chain())
+        if last == 'zip':
+            o = self._as_iter(args[1])
+
+            def g_zip():
+                while True:
+                    r = it.next()
+                    if is_none(r):
+                        return
+                    q = o.next()
+                    if is_none(q):
+                        return
+                    yield (r.payload[0], q.payload[0])
+            return lazy(g_zip())
+        if last in ('cloned', 'copied'):
+            def g_cp():
+                while True:
+                    r = it.next()
+                    if is_none(r):
+                        return
+                    v = d(r.payload[0])
+                    yield copy.deepcopy(v) if isinstance(v, (Struct, Enum, Seq)) else v
+            return lazy(g_cp())
+        if last == 'count':
+            return len(it.drain())
+        if last == 'last':
+            r = it.drain()
+            return Some(r[-1]) if r else NONE
+        if last == 'collect':
+            ga = (t or {}).get('gargs', '') if isinstance(t, dict) else ''
+            tail = ga.rstrip(']').rstrip()
+            if tail.endswith(('alloc::string::String', 'alloc::boxed::Box<str, alloc::alloc::Global>')):
+                # collect::<String>() of chars / &str / String items: concatenation
+                parts = [d(x) for x in it.drain()]
+                if all(isinstance(x, str) for x in parts):
+                    return ''.join(parts)
+                raise Unsupported('collect::<String>() of %r' % (parts[:3],))
+            m_ = re.search(r'core::(option::Option|result::Result)<alloc::(vec::Vec|string::String)<', tail)
+            if m_ and tail.rsplit(', core::', 1)[-1].startswith(m_.group(1)) or (m_ and tail.startswith('core::' + m_.group(1))):
+                # collect::<Option<Vec<_>>>() / Result<Vec<_>, E>: stop at the first None / Err
+                out = []
+                while True:
+                    r = it.next()
+                    if is_none(r):
+                        break
+                    x = d(r.payload[0])
+                    if isinstance(x, Enum) and x.variant in ('None', 'Err'):
+                        return x
+                    out.append(x.payload[0])
+                okc = Some if 'option::Option' in m_.group(1) else (lambda v: Enum('core::result::Result', 'Ok', [v]))
+                if 'string::String' in m_.group(2):
+                    return okc(''.join(d(x) for x in out))
+                return okc(Seq(out))
+            return Seq(it.drain())
+        if last in ('find', 'position'):
+            pr = self._pred(args[1])
+            i = 0
+            while True:
+                r = it.next()
+                if is_none(r):
+                    return NONE
+                if pr(r.payload[0]):
+                    return Some(r.payload[0] if last == 'find' else i)
+                i += 1
+        if last == 'peek':
+            return Some(it.items[it.pos]) if it.has_next() else NONE
+        if last == 'peek_mut':
+            return Some(Ref('elem', (Seq.__new__(Seq), 0))) if False else (Some(it.items[it.pos]) if it.has_next() else NONE)
+        if last == 'size_hint':
+            n = len(it.rest())
+            return (n, Some(n))
+        if last == 'len':
+            return len(it.rest())
+        if last == 'nth':
+            k = d(args[1])
+            for _ in range(k):
+                if is_none(it.next()):
+                    return NONE
+            return it.next()
+        if last in ('next_back', 'nth_back'):
+            k = d(args[1]) if last == 'nth_back' else 0
+            rest = it.rest()
+            if k < len(rest):
+                v = rest[len(rest) - 1 - k]
+                del it.items[it.pos + len(rest) - 1 - k:]
+                return Some(v)
+            del it.items[it.pos:]
+            return NONE
+        if last == 'next_if':
+            if it.has_next() and call(args[1], [it.items[it.pos]]):
+                it.pos += 1
+                return Some(it.items[it.pos - 1])
+            return NONE
+        if last == 'next_if_eq':
+            if it.has_next() and d(it.items[it.pos]) == d(args[1]):
+                it.pos += 1
+                return Some(it.items[it.pos - 1])
+            return NONE
+        if last in ('sum', 'product'):
+            acc = 0 if last == 'sum' else 1
+            for x in it.drain():
+                acc = acc + d(x) if last == 'sum' else acc * d(x)
+            return acc
+        if last in ('min', 'max'):
+            r = [d(x) for x in it.drain()]
+            if not r:
+                return NONE
+            # max returns the last of equal maxima, min the first
+            best = r[0]
+            for x in r[1:]:
+                if (x >= best) if last == 'max' else (x < best):
+                    best = x
+            return Some(best)
+        if last == 'fold':
+            acc = args[1]
+            while True:
+                r = it.next()
+                if is_none(r):
+                    return acc
+                acc = call(args[2], [acc, r.payload[0]])
+        if last == 'reduce':
+            r = it.next()
+            if is_none(r):
+                return NONE
+            acc = r.payload[0]
+            while True:
+                r = it.next()
+                if is_none(r):
+                    return Some(acc)
+                acc = call(args[1], [acc, r.payload[0]])
+        if last == 'try_fold':
+            acc = args[1]
+            while True:
+                r = it.next()
+                if is_none(r):
+                    return self._try_ok(t, acc)
+                y = call(args[2], [acc, r.payload[0]])
+                if isinstance(y, Enum) and y.variant in ('Err', 'None', 'Break'):
+                    return y
+                acc = y.payload[0]
+        if last == 'try_for_each':
+            while True:
+                r = it.next()
+                if is_none(r):
+                    return self._try_ok(t, ())
+                y = call(args[1], [r.payload[0]])
+                if isinstance(y, Enum) and y.variant in ('Err', 'None', 'Break'):
+                    return y
+        if last == 'for_each':
+            while True:
+                r = it.next()
+                if is_none(r):
+                    return ()
+                call(args[1], [r.payload[0]])
+        if last == 'rposition':
+            pr = self._pred(args[1])
+            rest = it.rest()
+            for i in range(len(rest) - 1, -1, -1):
+                if pr(rest[i]):
+                    return Some(i)
+            return NONE
+        if last == 'rfind':
+            pr = self._pred(args[1])
+            rest = it.rest()
+            for i in range(len(rest) - 1, -1, -1):
+                if pr(rest[i]):
+                    return Some(rest[i])
+            return NONE
+        if last == 'find_map':
+            while True:
+                r = it.next()
+                if is_none(r):
+                    return NONE
+                y = call(args[1], [r.payload[0]])
+                if not is_none(y):
+                    return y
+        if last == 'unzip':
+            pairs = [d(x) for x in it.drain()]
+            return (Seq([p_[0] for p_ in pairs]), Seq([p_[1] for p_ in pairs]))
+        if last == 'partition':
+            a_, b_ = [], []
+            for x in it.drain():
+                (a_ if call(args[1], [x]) else b_).append(x)
+            return (Seq(a_), Seq(b_))
+        if last in ('max_by_key', 'min_by_key', 'max_by', 'min_by'):
+            r = it.drain()
+            if not r:
+                return NONE
+            if last.endswith('_key'):
+                ks = [d(call(args[1], [x])) for x in r]
+                lt = lambda i, k: ks[i] < ks[k]           # noqa: E731
+            else:
+                lt = lambda i, k: d(call(args[1], [r[i], r[k]])).variant == 'Less'   # noqa: E731
+            best = 0
+            for i in range(1, len(r)):
+                if last.startswith('max'):
+                    if not lt(i, best):
+                        best = i          # the last maximal element
+                elif lt(i, best):
+                    best = i              # the first minimal element
+            return Some(r[best])
+        if last in ('eq', 'ne'):
+            o = self._as_iter(args[1])
+            same = [d(x) for x in it.drain()] == [d(x) for x in o.drain()]
+            return same == (last == 'eq')
+        if last == 'cmp':
+            o = self._as_iter(args[1])
+            a_, b_ = [d(x) for x in it.drain()], [d(x) for x in o.drain()]
+            return Enum('core::cmp::Ordering', 'Less' if a_ < b_ else ('Greater' if a_ > b_ else 'Equal'))
+        if last == 'clone':
+            return copy.deepcopy(it)
+        if last == 'as_str' and all(isinstance(x, str) for x in it.rest()):
+            return ''.join(it.rest())
+        raise Unsupported('iterator method ' + name)
+
     def find_impl(self, type_name, trait_path, method):
         """MIR path of `<[&]Type as Trait>::method` for a runtime struct name (trait dispatch on generic code)."""
         key = (type_name, trait_path, method)
@@ -1805,24 +2897,24 @@ class VM:
             cache[key] = found[0] if len(found) == 1 else None
         return cache[key]
 
-    def materialise(self, v):
-        """A crate-local iterator struct -> the list of items its own next() yields."""
+    def _materialise_gen(self, v):
         nxt = self.find_impl(v.name, 'core::iter::traits::iterator::Iterator', 'next')
         if nxt is None:
             raise Unsupported('no Iterator impl for ' + v.name)
         self.heap_counter = getattr(self, 'heap_counter', 0) + 1
         key = '$iter%d' % self.heap_counter
         self.heap[key] = v
-        out = []
-        try:
-            for _ in range(100000):
-                r = self.run(self.facts.mir_body(nxt), [Ref('heap', key)])
-                if is_none(r):
-                    return out
-                out.append(r.payload[0])
-        finally:
-            del self.heap[key]
+        for _ in range(100000):
+            r = self.run(self.facts.mir_body(nxt), [Ref('heap', key)])
+            if is_none(r):
+                self.heap.pop(key, None)
+                return
+            yield r.payload[0]
         raise Unsupported('iterator does not end')
+
+    def materialise(self, v):
+        """A crate-local iterator struct -> the list of items its own next() yields."""
+        return list(self._materialise_gen(v))
 
     def as_text(self, v):
         v = self.deref(v)
@@ -1869,6 +2961,19 @@ class VM:
             if self.is_local(callee):
                 # a provided (default) trait method that the receiver's type does not override
                 return self.run(self.facts.mir_body(callee), args)
+        # a tuple-variant / tuple-struct constructor used as a function (`.map(Marker::Ordinal)`, a table of constructors)
+        tpath = (target or '').split('::<')[0]
+        if '::' in tpath:
+            head, tail = tpath.rsplit('::', 1)
+            a_ = self.facts.adts.get(head)
+            if a_ and a_['kind'] == 'Enum' and any(v['name'] == tail and len(v['fields']) == len(args) for v in a_['variants']):
+                return Enum(head, tail, list(args))
+        a_ = self.facts.adts.get(tpath)
+        if a_ and a_['kind'] == 'Struct' and len(a_['variants']) == 1 and len(a_['variants'][0]['fields']) == len(args) and \
+                all(fd['name'].isdigit() for fd in a_['variants'][0]['fields']):
+            return Struct(tpath.split('::')[-1], {str(i): x for i, x in enumerate(args)})
+        if tpath in ('core::option::Option::Some', 'core::result::Result::Ok', 'core::result::Result::Err') and len(args) == 1:
+            return Enum(tpath.rsplit('::', 1)[0], tpath.rsplit('::', 1)[1], list(args))
         raise Unsupported('call of %s (%s) on %r' % (name, target, [self._show(a) for a in args][:3]))
 
     def _show(self, a):
@@ -1912,7 +3017,17 @@ class VM:
                 self.steps += 1
                 k = s['k']
                 if k == 'assign':
-                    self.write_place(fr, s['pl'], self.rvalue(fr, s['rv']))
+                    rv_ = s['rv']
+                    if rv_['k'] == 'bin' and not s['pl']['p']:
+                        # the type of the destination local tells the width / signedness of the arithmetic
+                        ls_ = m.get('locals')
+                        self._dest_ty = ls_[s['pl']['l']]['ty'] if ls_ and s['pl']['l'] < len(ls_) else None
+                        try:
+                            self.write_place(fr, s['pl'], self.rvalue(fr, rv_))
+                        finally:
+                            self._dest_ty = None
+                    else:
+                        self.write_place(fr, s['pl'], self.rvalue(fr, rv_))
                 elif k == 'setdiscr':
                     raise Unsupported('setdiscr')
             self.steps += 1
